@@ -845,3 +845,497 @@ Proof.
   intros Hu Hv. apply (mcanonical_aux (mnvars s)); try done; lia.
 Qed.
 End mcanon.
+
+(** ** Reference counts of an MDD manager *)
+Definition m_edges_to (t : mtuple) (n : positive) : nat :=
+  length (filter (fun x => absn x = n) t.2).
+Definition m_indeg (m : gmap positive mtuple) (n : positive) : nat :=
+  map_fold (fun _ t acc => m_edges_to t n + acc) 0 m.
+(** the counters are exact w.r.t. a ledger [L] of external references *)
+Definition MCounts (s : mst) (L : positive → nat) : Prop :=
+  (∀ n, n ∈ dom (msucc s) → mref s !! n = Some (m_indeg (msucc s) n + L n)) ∧
+  (∀ n, n ∉ dom (msucc s) → L n = 0).
+
+Lemma m_indeg_empty n : m_indeg ∅ n = 0.
+Proof. unfold m_indeg. by rewrite map_fold_empty. Qed.
+Lemma m_indeg_insert_fresh m u t n : m !! u = None →
+  m_indeg (<[u := t]> m) n = m_edges_to t n + m_indeg m n.
+Proof.
+  intros H. unfold m_indeg. rewrite map_fold_insert_L; [done| |done].
+  intros; lia.
+Qed.
+Lemma m_indeg_delete m u t n : m !! u = Some t →
+  m_indeg m n = m_edges_to t n + m_indeg (delete u m) n.
+Proof.
+  intros H. rewrite <- (insert_delete m u t) at 1 by done.
+  apply m_indeg_insert_fresh. apply lookup_delete.
+Qed.
+Lemma m_indeg_ge m k t n : m !! k = Some t → m_edges_to t n ≤ m_indeg m n.
+Proof. intros H. rewrite (m_indeg_delete m k t n H). lia. Qed.
+Lemma m_indeg_pos m n : 0 < m_indeg m n →
+  ∃ k t, m !! k = Some t ∧ 0 < m_edges_to t n.
+Proof.
+  induction m as [|i x m Hi IH] using map_ind.
+  - rewrite m_indeg_empty. lia.
+  - rewrite m_indeg_insert_fresh by done. intros H.
+    destruct (decide (0 < m_edges_to x n)) as [Hx|Hx].
+    + exists i, x. by rewrite lookup_insert.
+    + destruct IH as (k&t&Hk&Ht); [lia|]. exists k, t. split; [|done].
+      rewrite lookup_insert_ne; [done|]. congruence.
+Qed.
+
+Lemma m_edges_to_pos (t : mtuple) n : 0 < m_edges_to t n ↔ ∃ x, x ∈ t.2 ∧ absn x = n.
+Proof.
+  unfold m_edges_to. split.
+  - intros H. destruct (filter _ t.2) as [|x l] eqn:E; [cbn in H; lia|].
+    assert (x ∈ filter (fun x => absn x = n) t.2) as Hx by (rewrite E; left).
+    apply elem_of_list_filter in Hx as [? ?]. by exists x.
+  - intros (x&Hx&E).
+    assert (x ∈ filter (fun x => absn x = n) t.2) as Hin by (by apply elem_of_list_filter).
+    destruct (filter _ t.2); [by apply elem_of_nil in Hin|cbn; lia].
+Qed.
+
+Inductive mreach (m : gmap positive mtuple) (R : positive → Prop) : positive → Prop :=
+  | mreach_root n : R n → n ∈ dom m → mreach m R n
+  | mreach_step p (t : mtuple) x : mreach m R p → m !! p = Some t → x ∈ t.2 →
+      mreach m R (absn x).
+
+(** ** The invariant without the computed table *)
+Definition mclr (s : mst) : mst := s <| mite := ∅ |>.
+Definition MW (s : mst) : Prop := MInv (mclr s).
+
+Lemma MInv_MW s : MInv s → MW s.
+Proof.
+  intros HI. split; [apply HI|apply HI|apply HI|apply HI|apply HI|apply HI| |apply HI|apply HI].
+  intros g u v w Hi. cbn in Hi. by rewrite lookup_empty in Hi.
+Qed.
+
+Section MW.
+Context (s : mst) (HW : MW s).
+Lemma MW_term : mlk s 1%positive = Some (mnvars s, []).
+Proof. exact (minv_term _ HW). Qed.
+Lemma MW_node n i nodes : mlk s n = Some (i, nodes) → n ≠ 1%positive →
+  i < mnvars s ∧ mlen_at s i (length nodes) ∧
+  (∀ x, x ∈ nodes → mvalid s x ∧ i < mlvl_of s x) ∧
+  (0 < hd 0%Z nodes)%Z ∧ ¬ all_eq nodes.
+Proof. exact (minv_node _ HW n i nodes). Qed.
+Lemma MW_pred n (t : mtuple) : mpred s !! t = Some n ↔ (mlk s n = Some t ∧ n ≠ 1%positive).
+Proof. exact (minv_pred _ HW n t). Qed.
+Lemma MW_ref : dom (mref s) = dom (msucc s).
+Proof. exact (minv_ref _ HW). Qed.
+Lemma MW_free k : k ∈ mfree s → mlk s k = None ∧ (k <= mmax s)%positive.
+Proof. exact (minv_free _ HW k). Qed.
+Lemma MW_max k : (mmax s < k)%positive → mlk s k = None.
+Proof. exact (minv_max _ HW k). Qed.
+
+(** edges of a well-formed manager only point to stored nodes, never from
+    the terminal, never to the node itself *)
+Lemma MW_edges_dom k (t : mtuple) n : mlk s k = Some t → 0 < m_edges_to t n →
+  n ∈ dom (msucc s) ∧ k ≠ 1%positive ∧ n ≠ k.
+Proof.
+  intros Hk He. apply m_edges_to_pos in He as (x&Hx&<-).
+  assert (k ≠ 1%positive) as Hk1.
+  { intros ->. rewrite MW_term in Hk. injection Hk as <-. by apply elem_of_nil in Hx. }
+  destruct t as [i nodes]. destruct (MW_node k i nodes Hk Hk1) as (_&_&Hch&_).
+  destruct (Hch x Hx) as [[_ Hs] Hl]. split_and!; [by apply elem_of_dom|done|].
+  intros E. unfold mlvl_of in Hl. rewrite E, Hk in Hl. cbn in Hl. lia.
+Qed.
+End MW.
+
+Lemma mreach_dom s R n : MInv s → mreach (msucc s) R n → n ∈ dom (msucc s).
+Proof.
+  intros HI. induction 1 as [n _ Hn|p t x _ IH Hp Hx]; [done|].
+  apply (MW_edges_dom s (MInv_MW s HI) p t). { done. }
+  apply m_edges_to_pos. by exists x.
+Qed.
+
+(** ** Decrementing the counters of a list of successors *)
+Definition mdecs (l : list Z) (m : gmap positive nat) : gmap positive nat :=
+  foldl (fun m x => alter Nat.pred (absn x) m) m l.
+
+Lemma mdecs_lookup l : ∀ m n,
+  mdecs l m !! n = (fun y => y - length (filter (fun x => absn x = n) l)) <$> m !! n.
+Proof.
+  induction l as [|x l IH]; intros m n.
+  - cbn. destruct (m !! n); cbn; [f_equal; lia|done].
+  - unfold mdecs. cbn [foldl]. fold (mdecs l (alter Nat.pred (absn x) m)). rewrite IH.
+    destruct (decide (absn x = n)) as [E|E].
+    + rewrite filter_cons_True by done. rewrite <- E, lookup_alter.
+      destruct (m !! absn x); cbn; [f_equal; lia|done].
+    + rewrite filter_cons_False by done. by rewrite lookup_alter_ne.
+Qed.
+Lemma dom_mdecs l m : dom (mdecs l m) = dom m.
+Proof.
+  apply stdpp.sets.set_eq. intros n. rewrite !elem_of_dom, mdecs_lookup. by rewrite fmap_is_Some.
+Qed.
+Lemma mdecs_other l : ∀ m n, n ∉ absn <$> l → mdecs l m !! n = m !! n.
+Proof.
+  induction l as [|x l IH]; intros m n Hn; [done|].
+  rewrite fmap_cons, not_elem_of_cons in Hn. destruct Hn as [Hx Hn].
+  unfold mdecs. cbn [foldl]. fold (mdecs l (alter Nat.pred (absn x) m)).
+  rewrite IH by done. by rewrite lookup_alter_ne.
+Qed.
+Lemma mdecs_zero l m n : m !! n = Some 0 → mdecs l m !! n = Some 0.
+Proof. intros H. rewrite mdecs_lookup, H. done. Qed.
+
+Lemma m_decref_run s u : u ≠ 0%Z → is_Some (mref s !! absn u) →
+  m_decref u s = (Ok tt, s <| mref ::= alter Nat.pred (absn u) |>).
+Proof.
+  intros Hu [n Hn]. unfold m_decref. cbn [bind get].
+  rewrite decide_False by done. by rewrite Hn.
+Qed.
+Lemma m_ref_run s u r : u ≠ 0%Z → mref s !! absn u = Some r → m_ref u s = (Ok r, s).
+Proof.
+  intros Hu Hn. unfold m_ref. cbn [bind get].
+  rewrite decide_False by done. by rewrite Hn.
+Qed.
+
+Definition m_dec_body (unused : gset positive) (v : Z) : MM (gset positive) :=
+  m_decref v ;;;
+  r <- m_ref v ;;
+  if decide (r = 0 ∧ absn v ≠ 1%positive)
+  then ret (unused ∪ {[absn v]}) else ret unused.
+
+Lemma m_dec_loop l : ∀ s (U : gset positive),
+  (∀ x, x ∈ l → x ≠ 0%Z ∧ is_Some (mref s !! absn x)) →
+  ∃ U' : gset positive,
+    foldM m_dec_body U l s = (Ok U', s <| mref := mdecs l (mref s) |>) ∧
+    U ⊆ U' ∧
+    (∀ n, n ∈ U' → n ∈ U ∨ (n ≠ 1%positive ∧ n ∈ absn <$> l ∧
+                              mdecs l (mref s) !! n = Some 0)) ∧
+    (∀ n, n ∈ absn <$> l → n ≠ 1%positive → mdecs l (mref s) !! n = Some 0 → n ∈ U').
+Proof.
+  induction l as [|x l IH]; intros s U Hl.
+  - exists U. split; [cbn; by destruct s|]. split; [done|]. split; [by left|].
+    intros n Hn. by apply elem_of_nil in Hn.
+  - destruct (Hl x ltac:(left)) as [Hx0 [c Hc]].
+    set (s1 := s <| mref ::= alter Nat.pred (absn x) |>).
+    set (U1 := if decide (Nat.pred c = 0 ∧ absn x ≠ 1%positive)
+               then U ∪ {[absn x]} else U).
+    assert (Hbody : m_dec_body U x s = (Ok U1, s1)).
+    { unfold m_dec_body. rewrite (bind_ok _ _ _ _ _ (m_decref_run s x Hx0 ltac:(by eexists))).
+      fold s1. rewrite (bind_ok _ _ _ _ _ (m_ref_run s1 x (Nat.pred c) Hx0
+        ltac:(cbn; by rewrite lookup_alter, Hc))).
+      subst U1. by case_decide. }
+    destruct (IH s1 U1) as (U'&EU&Hsub&Hb&Hc').
+    { intros y Hy. destruct (Hl y ltac:(by right)) as [? ?]. split; [done|].
+      cbn. by apply lookup_alter_is_Some. }
+    exists U'. split.
+    { cbn [foldM]. rewrite (bind_ok _ _ _ _ _ Hbody), EU. by destruct s. }
+    assert (Hm : mdecs (x :: l) (mref s) = mdecs l (mref s1)) by done.
+    rewrite Hm.
+    assert (HU1 : U ⊆ U1) by (subst U1; case_decide; set_solver).
+    split; [set_solver|]. split.
+    + intros n Hn. destruct (Hb n Hn) as [Hn1|(?&?&?)].
+      * subst U1. case_decide as Hd; [|by left].
+        apply elem_of_union in Hn1 as [?|Hn1]; [by left|].
+        apply elem_of_singleton in Hn1 as ->. right. destruct Hd as [Hd ?].
+        split; [done|]. split; [rewrite fmap_cons; left|].
+        apply mdecs_zero. cbn. rewrite lookup_alter, Hc. cbn. by rewrite Hd.
+      * right. split; [done|]. split; [rewrite fmap_cons; by right|done].
+    + intros n Hn Hn1 Hz. rewrite fmap_cons in Hn.
+      destruct (decide (n ∈ absn <$> l)) as [Hin|Hnin]; [by apply Hc'|].
+      apply elem_of_cons in Hn as [->|?]; [|done].
+      rewrite mdecs_other in Hz by done. cbn in Hz. rewrite lookup_alter, Hc in Hz.
+      injection Hz as Hz. apply Hsub. subst U1. rewrite decide_True by done. set_solver.
+Qed.
+
+Lemma m_release_ok s u : (u <= mmax s)%positive → u ∉ mfree s →
+  mlk s u = None → mref s !! u = None →
+  m_release u s = (Ok tt, s <| mfree ::= fun f => f ∪ {[u]} |>).
+Proof.
+  intros. unfold m_release. cbn [bind get]. unfold assert.
+  rewrite !bool_decide_eq_true_2 by done. done.
+Qed.
+
+(** ** One removal *)
+Definition m_gc_del (s : mst) (u : positive) (t : mtuple) : mst :=
+  let s1 := s <| msucc ::= delete u |> <| mpred ::= delete t |> <| mref ::= delete u |>
+              <| mfree ::= fun f => f ∪ {[u]} |> in
+  s1 <| mref := mdecs t.2 (mref s1) |>.
+
+Lemma mref_gc_del s u (t : mtuple) n : n ≠ u →
+  mref (m_gc_del s u t) !! n = (fun y => y - m_edges_to t n) <$> mref s !! n.
+Proof. intros Hn. cbn. rewrite mdecs_lookup, lookup_delete_ne by done. done. Qed.
+
+Lemma m_gc_loop_unfold f (U : gset positive) s u l (t : mtuple) :
+  elements U = u :: l → u ≠ 1%positive → mlk s u = Some t →
+  mpred s !! t = Some u → mref s !! u = Some 0 →
+  (u <= mmax s)%positive → u ∉ mfree s →
+  (∀ x, x ∈ t.2 → x ≠ 0%Z ∧ absn x ≠ u ∧ is_Some (mref s !! absn x)) →
+  ∃ U' : gset positive,
+    m_gc_loop (S f) U s = m_gc_loop f U' (m_gc_del s u t) ∧
+    U ∖ {[u]} ⊆ U' ∧
+    (∀ n, n ∈ U' → n ∈ U ∖ {[u]} ∨ (n ≠ 1%positive ∧ n ∈ absn <$> t.2 ∧
+                                    mref (m_gc_del s u t) !! n = Some 0)) ∧
+    (∀ n, n ∈ absn <$> t.2 → n ≠ 1%positive →
+          mref (m_gc_del s u t) !! n = Some 0 → n ∈ U').
+Proof.
+  intros Hel Hu1 Ht Hp Hr Hmax Hnf Hch.
+  set (s1 := s <| msucc ::= delete u |> <| mpred ::= delete t |> <| mref ::= delete u |>
+               <| mfree ::= fun f => f ∪ {[u]} |>).
+  destruct (m_dec_loop t.2 s1 (U ∖ {[u]})) as (U'&EU&Hsub&Hb&Hc).
+  { intros x Hx. destruct (Hch x Hx) as (?&?&?). split; [done|].
+    cbn. by rewrite lookup_delete_ne. }
+  exists U'. split; [|done].
+  cbn [m_gc_loop]. rewrite Hel. unfold assert.
+  rewrite bool_decide_eq_true_2 by done. cbn [bind ret get].
+  assert (H1 : of_opt (S := mst) EKey (mlk s u) s = (Ok t, s)) by (by rewrite Ht).
+  rewrite (bind_ok _ _ _ _ _ H1). cbn [bind modify].
+  assert (H2 : ∀ s0 : mst, of_opt (S := mst) EKey (mpred s !! t) s0 = (Ok u, s0))
+    by (intros; by rewrite Hp).
+  rewrite (bind_ok _ _ _ _ _ (H2 _)). cbn [bind modify].
+  rewrite Hr. cbn [of_opt bind ret modify].
+  erewrite (bind_ok (m_release u));
+    [|apply m_release_ok; [exact Hmax|exact Hnf|apply lookup_delete|apply lookup_delete]].
+  rewrite !bool_decide_eq_true_2 by done. cbn [bind ret].
+  erewrite bind_ok by exact EU. reflexivity.
+Qed.
+
+Lemma m_edges_to_zero (t : mtuple) n : n ∉ absn <$> t.2 → m_edges_to t n = 0.
+Proof.
+  intros Hn. destruct (decide (0 < m_edges_to t n)) as [H|H]; [|lia].
+  apply m_edges_to_pos in H as (x&Hx&<-). exfalso. apply Hn.
+  apply elem_of_list_fmap. by exists x.
+Qed.
+
+(** ** What one removal preserves *)
+Lemma MW_gc_del s u (t : mtuple) : MW s → mlk s u = Some t → u ≠ 1%positive →
+  m_indeg (msucc s) u = 0 → MW (m_gc_del s u t).
+Proof.
+  intros HW Ht Hu1 Hin.
+  assert (Hnop : ∀ n (t' : mtuple), mlk s n = Some t' → ∀ x, x ∈ t'.2 → absn x ≠ u).
+  { intros n t' Hn x Hx E.
+    pose proof (m_indeg_ge (msucc s) n t' u Hn) as Hle. rewrite Hin in Hle.
+    assert (0 < m_edges_to t' u); [|lia]. apply m_edges_to_pos. by exists x. }
+  assert (Hval : ∀ x, mvalid s x → absn x ≠ u → mvalid (mclr (m_gc_del s u t)) x).
+  { intros x [Hx0 Hx] Hxu. split; [done|]. cbn. by rewrite lookup_delete_ne. }
+  assert (Hlvl : ∀ x, absn x ≠ u → mlvl_of (mclr (m_gc_del s u t)) x = mlvl_of s x).
+  { intros x Hxu. unfold mlvl_of. cbn. by rewrite lookup_delete_ne. }
+  split.
+  - cbn. rewrite lookup_delete_ne by done. apply (MW_term s HW).
+  - intros n i nodes Hn Hn1. cbn in Hn. apply lookup_delete_Some in Hn as [Hnu Hn].
+    destruct (MW_node s HW n i nodes Hn Hn1) as (?&?&Hch&?&?).
+    split_and!; try done. intros x Hx. destruct (Hch x Hx) as [? ?].
+    pose proof (Hnop n (i, nodes) Hn x Hx) as Hxu.
+    rewrite Hlvl by done. split; [by apply Hval|done].
+  - intros n t'. cbn. rewrite !lookup_delete_Some. split.
+    + intros [Htt Hp]. apply (MW_pred s HW) in Hp as [Hn Hn1]. split; [|done].
+      split; [|done]. intros <-. pose proof (eq_trans (eq_sym Ht) Hn) as E. by injection E.
+    + intros [[Hnu Hn] Hn1]. split.
+      * intros <-. apply Hnu. assert (mpred s !! t = Some n) as E1 by (by apply (MW_pred s HW)).
+        assert (mpred s !! t = Some u) as E2 by (by apply (MW_pred s HW)). congruence.
+      * by apply (MW_pred s HW).
+  - cbn. rewrite dom_mdecs, !dom_delete_L. by rewrite (MW_ref s HW).
+  - intros k Hk. cbn in Hk |- *. apply elem_of_union in Hk as [Hk|Hk].
+    + destruct (MW_free s HW k Hk) as [? ?]. split; [|done].
+      apply lookup_delete_None. by right.
+    + apply elem_of_singleton in Hk as ->. split; [apply lookup_delete|].
+      destruct (decide (mmax s < u)%positive) as [Hlt|]; [|lia].
+      rewrite (MW_max s HW u Hlt) in Ht. done.
+  - intros k Hk. cbn in Hk |- *. apply lookup_delete_None. right. by apply (MW_max s HW).
+  - intros g a b c Hi. cbn in Hi. by rewrite lookup_empty in Hi.
+  - exact (minv_vars _ HW).
+  - exact (minv_lvls _ HW).
+Qed.
+
+Lemma MCounts_gc_del s L u (t : mtuple) : MCounts s L → mlk s u = Some t →
+  mref s !! u = Some 0 → MCounts (m_gc_del s u t) L.
+Proof.
+  intros [H1 H2] Ht Hr.
+  assert (Hud : u ∈ dom (msucc s)) by (apply elem_of_dom; eauto).
+  pose proof (H1 u Hud) as Hu. rewrite Hr in Hu. injection Hu as Hu.
+  split.
+  - intros n Hn. change (msucc (m_gc_del s u t)) with (delete u (msucc s)) in Hn |- *.
+    rewrite dom_delete_L in Hn.
+    assert (n ≠ u ∧ n ∈ dom (msucc s)) as [Hnu Hnd] by set_solver.
+    rewrite mref_gc_del by done. rewrite (H1 n Hnd).
+    rewrite (m_indeg_delete (msucc s) u t n Ht). cbn. f_equal. lia.
+  - intros n Hn. change (msucc (m_gc_del s u t)) with (delete u (msucc s)) in Hn.
+    rewrite dom_delete_L in Hn.
+    destruct (decide (n = u)) as [->|]; [lia|]. apply H2. set_solver.
+Qed.
+
+(** ** The loop invariant *)
+Record MJ (s0 : mst) (L : positive → nat) (s : mst) (U : gset positive) : Prop := {
+  mj_inv : MW s;
+  mj_counts : MCounts s L;
+  mj_sub : msucc s ⊆ msucc s0;
+  mj_vars : mvars s = mvars s0;
+  mj_max : mmax s = mmax s0;
+  mj_free : mfree s = mfree s0 ∪ (dom (msucc s0) ∖ dom (msucc s));
+  mj_unused : ∀ n, n ∈ U →
+     n ≠ 1%positive ∧ n ∈ dom (msucc s) ∧ mref s !! n = Some 0;
+  mj_reach : ∀ n, mreach (msucc s0) (fun k => 0 < L k) n → n ∈ dom (msucc s);
+  mj_complete : ∀ n, n ∈ dom (msucc s) → n ≠ 1%positive →
+     mref s !! n = Some 0 → n ∈ U;
+}.
+
+Lemma MJ_step s0 L s (U U' : gset positive) u (t : mtuple) :
+  MJ s0 L s U → u ∈ U → mlk s u = Some t →
+  U ∖ {[u]} ⊆ U' →
+  (∀ n, n ∈ U' → n ∈ U ∖ {[u]} ∨ (n ≠ 1%positive ∧ n ∈ absn <$> t.2 ∧
+                                  mref (m_gc_del s u t) !! n = Some 0)) →
+  (∀ n, n ∈ absn <$> t.2 → n ≠ 1%positive →
+        mref (m_gc_del s u t) !! n = Some 0 → n ∈ U') →
+  MJ s0 L (m_gc_del s u t) U'.
+Proof.
+  intros HJ HuU Ht Hsub Hb Hc.
+  destruct (mj_unused _ _ _ _ HJ u HuU) as (Hu1&Hud&Hr).
+  pose proof (mj_inv _ _ _ _ HJ) as HW.
+  pose proof (mj_counts _ _ _ _ HJ) as HC.
+  assert (Hin : m_indeg (msucc s) u = 0 ∧ L u = 0).
+  { destruct HC as [H1 _]. specialize (H1 u Hud). rewrite Hr in H1.
+    injection H1 as H1. lia. }
+  destruct Hin as [Hin HLu].
+  assert (Hdom : dom (msucc (m_gc_del s u t)) = dom (msucc s) ∖ {[u]})
+    by apply dom_delete_L.
+  assert (Hkids : ∀ x, x ∈ t.2 → absn x ≠ u ∧ absn x ∈ dom (msucc s)).
+  { intros x Hx.
+    destruct (MW_edges_dom s HW u t (absn x) Ht) as (?&?&?); [|done].
+    apply m_edges_to_pos. by exists x. }
+  split.
+  - by apply MW_gc_del.
+  - by apply MCounts_gc_del.
+  - etrans; [apply delete_subseteq|]. apply (mj_sub _ _ _ _ HJ).
+  - apply (mj_vars _ _ _ _ HJ).
+  - apply (mj_max _ _ _ _ HJ).
+  - rewrite Hdom. change (mfree (m_gc_del s u t)) with (mfree s ∪ {[u]}).
+    rewrite (mj_free _ _ _ _ HJ).
+    assert (u ∈ dom (msucc s0)).
+    { apply elem_of_dom. exists t. apply (lookup_weaken _ _ _ _ Ht (mj_sub _ _ _ _ HJ)). }
+    apply stdpp.sets.set_eq. intros k. rewrite !elem_of_union, !elem_of_difference, elem_of_singleton.
+    destruct (decide (k = u)) as [->|]; [tauto|]. tauto.
+  - intros n Hn. rewrite Hdom. destruct (Hb n Hn) as [Hn'|(Hn1&Hnk&Hz)].
+    + apply elem_of_difference in Hn' as [HnU Hnu]. rewrite elem_of_singleton in Hnu.
+      destruct (mj_unused _ _ _ _ HJ n HnU) as (?&?&Hrn).
+      split_and!; [done|set_solver|]. rewrite mref_gc_del by done. by rewrite Hrn.
+    + apply elem_of_list_fmap in Hnk as (x&->&Hx). destruct (Hkids x Hx) as [? ?].
+      split_and!; [done|set_solver|done].
+  - intros n Hn. rewrite Hdom.
+    pose proof (mj_reach _ _ _ _ HJ n Hn) as Hnd.
+    apply elem_of_difference. split; [done|]. rewrite elem_of_singleton. intros ->.
+    inversion Hn as [n' HR _ E|p tp x Hp Hsp Hx E].
+    + lia.
+    + pose proof (mj_reach _ _ _ _ HJ p Hp) as Hpd.
+      apply elem_of_dom in Hpd as [tp' Hp'].
+      pose proof (lookup_weaken _ _ _ _ Hp' (mj_sub _ _ _ _ HJ)) as Hp''.
+      assert (tp' = tp) as -> by congruence.
+      pose proof (m_indeg_ge (msucc s) p tp u Hp').
+      assert (0 < m_edges_to tp u); [|lia]. apply m_edges_to_pos. by exists x.
+  - intros n Hn Hn1 Hrn. rewrite Hdom in Hn.
+    apply elem_of_difference in Hn as [Hn Hnu]. rewrite elem_of_singleton in Hnu.
+    destruct (decide (n ∈ absn <$> t.2)) as [Hk|Hk]; [by apply Hc|].
+    apply Hsub. apply elem_of_difference. split; [|by rewrite elem_of_singleton].
+    apply (mj_complete _ _ _ _ HJ); try done.
+    rewrite mref_gc_del in Hrn by done. rewrite (m_edges_to_zero t n Hk) in Hrn.
+    destruct (mref s !! n) as [y|]; [|done]. cbn in Hrn. injection Hrn as Hrn. f_equal. lia.
+Qed.
+
+Lemma m_gc_loop_spec s0 L fuel : ∀ (U : gset positive) s r s',
+  MJ s0 L s U → size (msucc s) < fuel → m_gc_loop fuel U s = (r, s') →
+  r = Ok tt ∧ MJ s0 L s' ∅.
+Proof.
+  induction fuel as [|f IH]; intros U s r s' HJ Hsz; [lia|].
+  destruct (elements U) as [|u l] eqn:Hel.
+  { cbn [m_gc_loop]. rewrite Hel. intros [= <- <-]. split; [done|].
+    apply elements_empty_inv, leibniz_equiv in Hel. by subst. }
+  assert (HuU : u ∈ U) by (apply elem_of_elements; rewrite Hel; left).
+  destruct (mj_unused _ _ _ _ HJ u HuU) as (Hu1&Hud&Hr).
+  pose proof (mj_inv _ _ _ _ HJ) as HW.
+  apply elem_of_dom in Hud as [t Ht].
+  destruct (m_gc_loop_unfold f U s u l t Hel Hu1 Ht) as (U'&->&Hsub&Hb&Hc); try done.
+  - by apply (MW_pred s HW).
+  - destruct (decide (mmax s < u)%positive) as [Hlt|]; [|lia].
+    rewrite (MW_max s HW u Hlt) in Ht. done.
+  - intros Hf. destruct (MW_free s HW u Hf) as [Hn _]. rewrite Hn in Ht. done.
+  - intros x Hx.
+    destruct (MW_edges_dom s HW u t (absn x) Ht) as (Hd&_&Hne);
+      [apply m_edges_to_pos; by exists x|].
+    destruct t as [i nodes]. destruct (MW_node s HW u i nodes Ht Hu1) as (_&_&Hch&_).
+    destruct (Hch x Hx) as [[Hx0 _] _]. split_and!; [done|done|].
+    apply elem_of_dom. by rewrite (MW_ref s HW).
+  - apply IH.
+    + by apply (MJ_step s0 L s U U' u t).
+    + change (msucc (m_gc_del s u t)) with (delete u (msucc s)).
+      rewrite map_size_delete, Ht.
+      assert (size (msucc s) ≠ 0); [|lia].
+      intros E. apply map_size_empty_inv in E. rewrite E in Ht. done.
+Qed.
+
+(** at exit every remaining node is reachable from an external reference *)
+Lemma m_exit_reach s0 L s : MJ s0 L s ∅ →
+  ∀ n, n ∈ dom (msucc s) → n ≠ 1%positive → mreach (msucc s0) (fun k => 0 < L k) n.
+Proof.
+  intros HJ.
+  pose proof (mj_inv _ _ _ _ HJ) as HW.
+  pose proof (mj_counts _ _ _ _ HJ) as [HC1 HC2].
+  assert (Hgen : ∀ k n (t : mtuple), mlk s n = Some t → t.1 = k → n ≠ 1%positive →
+             mreach (msucc s0) (fun k => 0 < L k) n).
+  { intros k. induction (lt_wf k) as [k _ IH]. intros n t Hn Hk Hn1.
+    assert (Hnd : n ∈ dom (msucc s)) by (apply elem_of_dom; eauto).
+    pose proof (HC1 n Hnd) as Hrn.
+    destruct (decide (0 < L n)) as [HL|HL].
+    { apply mreach_root; [done|]. apply elem_of_dom. exists t.
+      apply (lookup_weaken _ _ _ _ Hn (mj_sub _ _ _ _ HJ)). }
+    destruct (decide (0 < m_indeg (msucc s) n)) as [Hi|Hi]; cycle 1.
+    { exfalso. apply (not_elem_of_empty (C := gset positive) n).
+      apply (mj_complete _ _ _ _ HJ n Hnd Hn1). rewrite Hrn. f_equal. lia. }
+    destruct (m_indeg_pos _ _ Hi) as (p&tp&Hp&He).
+    destruct (MW_edges_dom s HW p tp n Hp He) as (_&Hp1&_).
+    apply m_edges_to_pos in He as (x&Hx&E).
+    destruct tp as [ip nodesp]. destruct (MW_node s HW p ip nodesp Hp Hp1) as (_&_&Hch&_).
+    destruct (Hch x Hx) as [_ Hlx]. unfold mlvl_of in Hlx. rewrite E, Hn in Hlx.
+    pose proof (lookup_weaken _ _ _ _ Hp (mj_sub _ _ _ _ HJ)) as Hp0.
+    rewrite <- E. apply (mreach_step _ _ p (ip, nodesp) x); [|done|done].
+    apply (IH ip) with (ip, nodesp); [lia|done|done|done]. }
+  intros n Hn Hn1. apply elem_of_dom in Hn as [t Hn]. by apply (Hgen t.1 n t).
+Qed.
+
+(** ** [collect_garbage()] *)
+Theorem m_gc_exact s L r s' :
+  MInv s → MCounts s L →
+  m_collect_garbage s = (r, s') →
+  r = Ok tt ∧ MInv s' ∧ MCounts s' L ∧ mite s' = ∅ ∧
+  mvars s' = mvars s ∧ mmax s' = mmax s ∧
+  (∀ n, n ∈ dom (msucc s') ↔ n = 1%positive ∨ mreach (msucc s) (fun k => 0 < L k) n) ∧
+  (∀ n (t : mtuple), mlk s' n = Some t → mlk s n = Some t) ∧
+  mfree s' = mfree s ∪ (dom (msucc s) ∖ dom (msucc s')).
+Proof.
+  intros HI HC. unfold m_collect_garbage. cbn [bind get].
+  set (X := list_to_set (omap (fun '(u, r) => if decide (r = 0) then Some u else None)
+                              (map_to_list (mref s))) : gset positive).
+  assert (HX : ∀ n, n ∈ X ↔ mref s !! n = Some 0).
+  { intros n. subst X. rewrite elem_of_list_to_set, elem_of_list_omap. split.
+    - intros ([u c]&Hin&Hf). apply elem_of_map_to_list in Hin.
+      case_decide; [|done]. injection Hf as ->. by subst.
+    - intros Hn. exists (n, 0). split; [by apply elem_of_map_to_list|]. by rewrite decide_True. }
+  destruct (m_gc_loop (S (size (msucc s))) (X ∖ {[1%positive]}) s) as [r1 s1] eqn:Eloop.
+  pose proof Eloop as Eloop'.
+  apply (m_gc_loop_spec s L) in Eloop' as [-> HJ]; [| |lia].
+  2:{ split.
+      - by apply MInv_MW.
+      - done.
+      - done.
+      - done.
+      - done.
+      - set_solver.
+      - intros n Hn. apply elem_of_difference in Hn as [Hn Hn1].
+        rewrite elem_of_singleton in Hn1. apply HX in Hn.
+        split_and!; [done| |done]. rewrite <- (minv_ref _ HI). apply elem_of_dom. eauto.
+      - intros n Hn. by apply (mreach_dom s (fun k => 0 < L k) n HI).
+      - intros n Hn Hn1 Hr. apply elem_of_difference.
+        split; [by apply HX|by rewrite elem_of_singleton]. }
+  rewrite (bind_ok _ _ _ _ _ Eloop). cbn [modify]. intros [= <- <-].
+  pose proof (mj_inv _ _ _ _ HJ) as HW.
+  split; [done|]. split; [exact HW|]. split; [exact (mj_counts _ _ _ _ HJ)|].
+  split; [done|]. split; [exact (mj_vars _ _ _ _ HJ)|]. split; [exact (mj_max _ _ _ _ HJ)|].
+  split; [|split].
+  - intros n. change (msucc (s1 <| mite := ∅ |>)) with (msucc s1). split.
+    + intros Hn. destruct (decide (n = 1%positive)) as [|Hn1]; [by left|right].
+      by apply (m_exit_reach s L s1 HJ).
+    + intros [->|Hn]; [|by apply (mj_reach _ _ _ _ HJ)].
+      apply elem_of_dom. rewrite (MW_term s1 HW). by eexists.
+  - intros n t Hn. apply (lookup_weaken _ _ _ _ Hn (mj_sub _ _ _ _ HJ)).
+  - exact (mj_free _ _ _ _ HJ).
+Qed.
